@@ -28,7 +28,7 @@ import (
 )
 
 // WaitCeiling is how long a protocol barrier may take before it is reported ("hang").
-var WaitCeiling = 30 * time.Second
+var WaitCeiling = 180 * time.Second // generous: on a saturated machine (load 200+) a broker round trip has been seen to take more than 30 s
 
 type quietLogger struct{}
 
